@@ -1,6 +1,8 @@
 mod prog;
 mod proto;
 mod seq;
+mod tcp;
+mod tcpgen;
 mod wire;
 
 use rand::rngs::SmallRng;
@@ -108,6 +110,68 @@ fn main() {
             }
             out.flush().unwrap();
             println!("{{\"streams\": {}, \"universes\": {}, \"events\": {}, \"maxcap\": {}}}", streams.len(), universes, events, maxcap);
+        }
+        "tcp-wire" => {
+            // frame streams over a socket, every stream under many segmentations
+            let seed: u64 = get("seed", "1").parse().unwrap();
+            let count: usize = get("count", "10").parse().unwrap();
+            let profile = get("profile", "tpipeline");
+            let segmode = get("seg", "single");
+            let base: u16 = get("port", "21000").parse().unwrap();
+            let mut out = BufWriter::new(File::create(get("out", "tcpwire.ndjson")).unwrap());
+            let mut rng = SmallRng::seed_from_u64(seed);
+            tcp::install_hook();
+            let mut servers: HashMap<u32, tcp::Server> = HashMap::new();
+            let mut universes = 0;
+            let mut next_port = base;
+            for i in 0..count {
+                let s = tcpgen::gen_tcp_stream(&profile, &format!("{}-{}-{}", profile, seed, i), &mut rng);
+                if !servers.contains_key(&s.limit) {
+                    let p = tcp::free_port(next_port);
+                    next_port = p + 1;
+                    servers.insert(s.limit, tcp::start_server(p, "none", 0, s.limit, 64, 5, 2));
+                }
+                let srv = &servers[&s.limit];
+                let bytes = s.bytes();
+                writeln!(out, "{}", wire::stream_event(i + 1, &s, bytes.len())).unwrap();
+                let segs = tcpgen::tcp_segmentations(&s, &segmode, &mut rng);
+                for (u, seg) in segs.iter().enumerate() {
+                    tcp::run_stream_universe(srv, &s.frames, seg, u + 1, true, &mut out);
+                    universes += 1;
+                }
+            }
+            out.flush().unwrap();
+            println!("{{\"streams\": {}, \"universes\": {}}}", count, universes);
+        }
+        "tcp-prog" => {
+            // histories of abstract commands over one connection each (pipelined, chunked)
+            let seed: u64 = get("seed", "1").parse().unwrap();
+            let count: usize = get("count", "10").parse().unwrap();
+            let profile = get("profile", "general");
+            let pipeline: usize = get("pipeline", "8").parse().unwrap();
+            let chunk: usize = get("chunk", "0").parse().unwrap();
+            let base: u16 = get("port", "22000").parse().unwrap();
+            let workers: usize = get("workers", "2").parse().unwrap();
+            let mut out = BufWriter::new(File::create(get("out", "tcpprog.ndjson")).unwrap());
+            let mut rng = SmallRng::seed_from_u64(seed);
+            tcp::install_hook();
+            let mut events = 0;
+            let mut next_port = base;
+            let progs: Vec<prog::History> = if let Some(pf) = a.get("programs") {
+                BufReader::new(File::open(pf).unwrap()).lines().map(|l| l.unwrap()).filter(|l| !l.trim().is_empty())
+                    .map(|l| prog::history_from_json(&serde_json::from_str(&l).unwrap())).collect()
+            } else {
+                (0..count).map(|i| prog::generate(&format!("{}-{}-{}", profile, seed, i), &profile, &mut rng)).collect()
+            };
+            for (i, h) in progs.iter().enumerate() {
+                let p = tcp::free_port(next_port);
+                next_port = p + 1;
+                let srv = tcp::start_server(p, &h.cfg.policy, h.cfg.mem_limit, h.cfg.item_limit, 16, 5, workers);
+                events += tcp::run_history_tcp(h, &srv, &mut out, i + 1, pipeline, chunk);
+                tcp::HOOK_LOG.lock().unwrap().clear();
+            }
+            out.flush().unwrap();
+            println!("{{\"histories\": {}, \"events\": {}}}", progs.len(), events);
         }
         x => {
             eprintln!("unknown sub-command {}", x);
